@@ -320,6 +320,15 @@ theorem C09_rel_res (cplx : Bool) (ax b : List ℝ) :
 
 example : relRes false [0, 0] [(0 : ℝ), 0] = 0 := (C09_rel_res false _ _).1 (by simp [sqmags]) (by simp [sqmags])
 
+/-- `rel_res ≤ 2` for real arrays of the same shape (triangle inequality `‖b − Ax‖ ≤ ‖b‖ + ‖Ax‖ ≤ 2·max`) -/
+theorem C09_rel_res_le_two (ax b : List ℝ) (h : ax.length = b.length) : relRes false ax b ≤ 2 :=
+  relRes_le_two ax b h
+
+-- attained: b = −Ax
+example : relRes false [1, 0] [(-1 : ℝ), 0] = 2 := by
+  have h1 : Real.sqrt 4 = 2 := by rw [show (4 : ℝ) = 2 ^ 2 by norm_num]; exact Real.sqrt_sq (by norm_num)
+  norm_num [relRes, sqmags, HasSqrt.sqrt, maxR, isZero, h1]
+
 /-- `mae ≥ 0`; for real images of the same non-zero size `mse = 0` exactly when they are equal; and on block
     arrays (after 200a606) the metrics are evaluated on `_flatten(reference − comparison)`, which is the
     difference of the concatenations, so every metric of block arrays is the metric of the concatenations -/
